@@ -17,6 +17,7 @@ use std::cell::RefCell;
 
 thread_local! { pub static LAST_PANIC: RefCell<String> = const { RefCell::new(String::new()) }; }
 thread_local! { pub static GUARD_DEPTH: std::cell::Cell<u32> = const { std::cell::Cell::new(0) }; }
+pub static RUNNING_PROP: std::sync::OnceLock<String> = std::sync::OnceLock::new();
 
 /// Run `f` catching panics; Err carries the panic message and location.
 pub fn guarded<R>(f: impl FnOnce() -> R) -> Result<R, String> {
@@ -40,6 +41,18 @@ fn main() {
         };
         let loc = info.location().map(|l| format!("{}:{}", l.file(), l.line())).unwrap_or_default();
         if GUARD_DEPTH.with(|d| d.get()) == 0 {
+            let in_sut = !loc.contains("/mc/src/") && (loc.contains("miniz_oxide/src/") || ["src/lib_oxide.rs", "src/tdef.rs", "src/tinfl.rs", "src/c_export.rs", "src/lib.rs"].iter().any(|f| loc.contains(f)));
+            if let (true, Some(prop)) = (in_sut, RUNNING_PROP.get()) {
+                // safety net: the code under test panicked in a call the harness had not wrapped.
+                // That is a crash of the library on an input of this property's space, not a
+                // machinery failure: report it as such (the work item ids locate the case).
+                let (a, b) = watchdog::current_ids();
+                let path = evidence::write_replay(prop, &serde_json::json!({"property": prop, "kind": "unguarded-panic", "message": msg, "location": loc, "work_item": a, "sub": b,
+                    "note": "panic inside the library during this check; re-run ./check <ID> quick to reproduce (deterministic)"}));
+                println!("VIOLATION property={} replay={} site={}/panic/unguarded :: the library panicked: {} @ {} (work item {}/{})", prop, path, prop, msg, loc, a, b);
+                evidence::emergency_evidence(prop, "library panic outside a guarded call");
+                std::process::exit(1);
+            }
             // a panic of the machinery itself, not of the code under test
             eprintln!("MACHINERY panic in harness: {} @ {}", msg, loc);
         }
@@ -65,6 +78,7 @@ fn main() {
     });
     let tier = if args.get(2).map(|s| s == "quick" || s == "thorough").unwrap_or(false) { args[2].clone() } else { tier };
     watchdog::start(&id);
+    let _ = RUNNING_PROP.set(id.clone());
     let code = props::run(&id, &tier);
     std::process::exit(code);
 }
